@@ -983,6 +983,30 @@ func c12Stray(r *Rand, ts []string) []string {
 	return append(out, ts[i:]...)
 }
 
+// c12InsertRedir inserts a whole redirection `> word` in front of a command start (the beginning,
+// or after a separator, an operator, `!`, an opening reserved word, `(`, or the `)` of `f ( )`),
+// or, one time in five, anywhere.
+func c12InsertRedir(r *Rand, ts []string) []string {
+	at := []int{0}
+	for i, t := range ts {
+		switch t {
+		case ";", "NL", "&", "|", "&&", "||", "!", "then", "do", "else", "elif", "if", "while", "until", "{", "(", ")", ";;":
+			at = append(at, i+1)
+		}
+	}
+	i := at[r.Intn(len(at))]
+	if r.Chance(20) {
+		i = r.Intn(len(ts) + 1)
+	}
+	w := "W"
+	if r.Chance(15) {
+		w = r.Pick([]string{"Q", "A", "if", "}", "done"})
+	}
+	out := append([]string(nil), ts[:i]...)
+	out = append(out, ">", w)
+	return append(out, ts[i:]...)
+}
+
 // c12Mutate applies one token-level insertion, deletion, replacement or swap.
 func c12Mutate(r *Rand, ts []string) []string {
 	out := append([]string(nil), ts...)
@@ -1156,7 +1180,7 @@ func c12(c *Ctx) {
 	}
 	c.Rule = "token lists over {W Q A > if then elif else fi while until do done for in case esac { } ! ( ) ; & && || | ;; NL}: " +
 		"corpus; all lists up to length 3 (quick) / 4, and all lists of length 5-6 over {W > if then else fi { } ( ) ; |} (thorough, sharded); programs derived from the core grammar (depth<=3) and 1-2 token " +
-		"insertions/deletions/replacements/swaps of them; case clauses with an unterminated last item nested in ( ) / f() ( ) / { } / if / while / case; a closing token (;; ) } fi done esac …) placed after a complete statement; each rendered with random spellings per class; both LangBash and LangPOSIX; " +
+		"insertions/deletions/replacements/swaps of them; case clauses with an unterminated last item nested in ( ) / f() ( ) / { } / if / while / case; a closing token (;; ) } fi done esac …) placed after a complete statement; a whole redirection inserted in front of a command start (and all lists of up to 4 units with `> word` as one unit); each rendered with random spellings per class; both LangBash and LangPOSIX; " +
 		"non-trivial = accepted by the Go parser, or a mutant of a derived program (the exhaustive short lists are counted as trivial)"
 	g := c12Gen{c.R}
 	var cases []c12Case
@@ -1240,6 +1264,52 @@ func c12(c *Ctx) {
 			cur = cur[:len(cur)-1]
 		}
 	}
+	// … and every list of up to 4 units in which a whole redirection `> word` counts as one unit
+	// (at least one redirection; up to 8 tokens), so that a redirection is tried in front of and
+	// behind every kind of command start, separator and closing word.
+	{
+		units := append(append([]string(nil), c12Full...), "R")
+		maxU := 4
+		var cu []string
+		var rec func(hasR bool)
+		rec = func(hasR bool) {
+			if len(cu) > 0 && hasR {
+				idx++
+				if idx%c.Shards == c.Shard {
+					var ts []string
+					for _, u := range cu {
+						if u == "R" {
+							ts = append(ts, ">", "W")
+						} else {
+							ts = append(ts, u)
+						}
+					}
+					src := c12Src(ts, c.R)
+					for _, posix := range []bool{false, true} {
+						lang := syntax.LangBash
+						if posix {
+							lang = syntax.LangPOSIX
+						}
+						gres := c12Go(lang, src)
+						c.Op("acc "+c12LangName(posix)+" "+strings.Join(ts, " "), gres)
+						c.Case("x", false, "exhaustive-redir-unit")
+						if gres != c12Model(c12GoCfg(posix), ts) && len(cases) < 400 {
+							add("exhaustive", posix, ts, false, true)
+						}
+					}
+				}
+			}
+			if len(cu) == maxU {
+				return
+			}
+			for _, u := range units {
+				cu = append(cu, u)
+				rec(hasR || u == "R")
+				cu = cu[:len(cu)-1]
+			}
+		}
+		rec(false)
+	}
 	if c.Thorough() {
 		exh(c12Full, 1, 4)
 		exh([]string{"W", ">", "if", "then", "else", "fi", "{", "}", "(", ")", ";", "|"}, 5, 6)
@@ -1257,6 +1327,9 @@ func c12(c *Ctx) {
 		posix := c.R.Bool()
 		if c.R.Chance(20) {
 			add("stray", c.R.Bool(), c12Stray(c.R, ts), false, c.R.Chance(40))
+		}
+		if c.R.Chance(30) {
+			add("redir", c.R.Bool(), c12InsertRedir(c.R, ts), false, c.R.Chance(40))
 		}
 		add("program", posix, ts, false, c.R.Chance(30))
 		if c.R.Chance(30) {
@@ -1369,7 +1442,7 @@ func c12(c *Ctx) {
 				}
 			}
 		}
-		c.Case(ln+" "+toks, gres == "acc" || cs.kind == "mutant" || cs.kind == "stray", tags...)
+		c.Case(ln+" "+toks, gres == "acc" || cs.kind == "mutant" || cs.kind == "stray" || cs.kind == "redir", tags...)
 	}
 }
 
